@@ -11,8 +11,10 @@ import (
 )
 
 const (
-	fLo = 2
-	fHi = 4095
+	fLo  = 2
+	fHi  = 4095
+	g2Lo = 4096
+	g2Hi = 65534
 )
 
 type ad struct {
@@ -89,6 +91,26 @@ func (a *ad) Apply(op core.Op) (interface{}, error) {
 			}
 		}
 		return []int{n}, nil
+	case "Prefill2":
+		n := 0
+		for l := g2Lo; l <= g2Hi; l++ {
+			v := l
+			if a.flip%2 == 1 {
+				v = g2Hi - (l - g2Lo)
+			}
+			if a.r.Add(v32(h, v)) {
+				n++
+			}
+		}
+		return []int{n}, nil
+	case "Unfill2":
+		n := 0
+		for l := g2Lo; l <= g2Hi; l++ {
+			if a.r.Remove(v32(h, l)) {
+				n++
+			}
+		}
+		return []int{n}, nil
 	}
 	panic("unknown op " + op.N)
 }
@@ -105,6 +127,17 @@ func tokens(vals []uint32) [][]int {
 			}
 			if j-i == fHi-fLo+1 {
 				out = append(out, []int{h, -1})
+				i = j
+				continue
+			}
+		}
+		if l == g2Lo {
+			j := i
+			for j < len(vals) && int(vals[j]>>16) == h && int(vals[j]&0xFFFF) == g2Lo+(j-i) && g2Lo+(j-i) <= g2Hi {
+				j++
+			}
+			if j-i == g2Hi-g2Lo+1 {
+				out = append(out, []int{h, -2})
 				i = j
 				continue
 			}
@@ -159,13 +192,10 @@ func (a *ad) Drain() interface{} {
 	out := [][]int{}
 	for _, h := range a.his {
 		vals := []uint32{}
-		for l := 0; l <= 7200; l++ { // (the filler block and the scattered values of the random driver)
+		for l := 0; l <= 65535; l++ { // every low value: both filler blocks, the scattered values of the random driver
 			if a.r.Contains(v32(h, l)) {
 				vals = append(vals, v32(h, l))
 			}
-		}
-		if a.r.Contains(v32(h, 65535)) {
-			vals = append(vals, v32(h, 65535))
 		}
 		out = append(out, tokens(vals)...)
 	}
@@ -175,15 +205,25 @@ func (a *ad) Drain() interface{} {
 // random driver: values over 8 buckets with bursts that cross the 4096 threshold in both directions
 type gen struct {
 	burst, hi, next, dir int
+	block2               bool // this trace fills buckets up to 65535 / 65536 values instead of scattering single values
 }
 
-func (g *gen) Init(rng *rand.Rand) json.RawMessage { *g = gen{}; return json.RawMessage(`{}`) }
+func (g *gen) Init(rng *rand.Rand) json.RawMessage {
+	*g = gen{block2: rng.Intn(4) == 0}
+	return json.RawMessage(`{}`)
+}
 func (g *gen) Next(rng *rand.Rand, step int) core.Op {
 	his := genHis()
 	// low values: the three of the model, and values scattered over the range above the filler block, so that a
 	// densely stored bucket has runs of empty 64-bit words of every length between its members
-	low := func() int {
+	if g.block2 && rng.Intn(12) == 0 {
 		if rng.Intn(3) == 0 {
+			return core.MkOp("Unfill2", his[rng.Intn(len(his))])
+		}
+		return core.MkOp("Prefill2", his[rng.Intn(len(his))])
+	}
+	low := func() int {
+		if !g.block2 && rng.Intn(3) == 0 {
 			return 4096 + 64*rng.Intn(48) + []int{0, 1, 63}[rng.Intn(3)]
 		}
 		return []int{0, 1, 65535}[rng.Intn(3)]
